@@ -349,6 +349,15 @@ impl<'a> TermIo<'a> {
         self.out.released_total
     }
 
+    /// Index the next event-log entry will get (global sequence number).
+    pub fn seq(&self) -> usize {
+        self.log.entries.len()
+    }
+
+    pub fn now_ms(&self) -> u64 {
+        self.log.now_ms()
+    }
+
     pub fn is_closed(&self) -> bool {
         self.out.closed.is_some()
     }
